@@ -14,7 +14,7 @@ class Crate:
 
 class Fn:
     __slots__ = ("crate", "raw", "info", "key", "promoted", "blocks", "_succ", "_pred", "_calls", "_defs",
-                 "_threaded", "nthreaded", "_closures", "_dom", "_fnrefs")
+                 "_threaded", "nthreaded", "_closures", "_dom", "_fnrefs", "_rf")
 
     def __init__(self, crate, raw):
         self.crate = crate
@@ -32,6 +32,7 @@ class Fn:
         self._closures = None
         self._dom = None
         self._fnrefs = None
+        self._rf = None
 
     # --- basic accessors
     @property
@@ -236,6 +237,24 @@ class Fn:
                     seen.add(y)
                     st.append(y)
         return seen
+
+    def reach_from(self, b):
+        """blocks reachable from b by at least one edge (memoised)"""
+        if self._rf is None:
+            self._rf = {}
+        r = self._rf.get(b)
+        if r is None:
+            succ = self.succ()
+            r = set()
+            st = list(succ[b])
+            while st:
+                x = st.pop()
+                if x in r:
+                    continue
+                r.add(x)
+                st.extend(succ[x])
+            self._rf[b] = r
+        return r
 
     def return_blocks(self):
         return [i for i, bb in enumerate(self.blocks) if bb["t"]["k"] == "return"]
@@ -566,6 +585,9 @@ def place_write_targets(f, pl, borrow=False):
                 continue
             out.append((o, e["n"]))
             saw_field = True
+    if borrow and out:
+        # a `&mut a.b.c` borrow may only write c (callees that receive it record their own writes)
+        out = out[-1:]
     if not saw_field and not borrow:
         # whole-value store through deref
         if proj and proj[0] == "*":
